@@ -25,6 +25,7 @@ META = {
 
 def run(repo, rep):
     alg.reset()
+    common.state_rule(repo, rep, [('geodepy.geodesy', 'vincdir')])
     common.typecheck_rules(repo, rep)
     rep.trust('sv/alg.py exact normal forms; generator independence modulo the rewrite rules applied')
     rep.trust('reference equations: GDA2020 technical manual v1.x eq. 88-102 (Vincenty 1975)')
